@@ -165,7 +165,7 @@ var (
 	negTwo64 = new(big.Int).Neg(two64)
 )
 
-var unicodePool = []string{"", "a", "key", "é", "日本語", "𝄞", "\u0000", "a\"b\\c", " ", " \t\n", "ÿ", "\U0010ffff", "ascii only text", "ñandú"}
+var unicodePool = []string{"", "a", "key", "é", "日本語", "𝄞", "\u0000", "a\"b\\c", " ", " \t\n", "ÿ", "\U0010ffff", "ascii only text", "ñandú", "\ufeffbom first", "bom \ufeff inside"}
 
 func genString(r *hlib.Rand) string {
 	switch r.Intn(4) {
